@@ -82,8 +82,13 @@ def spawn(stage_paths, mode, payload, workdir, name, hashseed="0"):
     return p, outf, logf
 
 
-def collect(procs, timeout):
-    """wait for workers -> list of result dicts; raises RuntimeError on harness error"""
+HUNG = []      # names of workers that did not finish (watchdog) or died: their part of the search is inconclusive
+
+
+def collect(procs, timeout, tolerant=False):
+    """wait for workers -> list of result dicts; raises RuntimeError on harness error.
+    tolerant: a worker that hangs or dies yields None (recorded in HUNG) instead of aborting the run, so that a
+    violation found by another worker is still reported; the caller decides what an incomplete, quiet run means."""
     t_end = time.time() + timeout
     results = []
     for p, outf, logf in procs:
@@ -91,15 +96,29 @@ def collect(procs, timeout):
         try:
             p.wait(timeout=left)
         except subprocess.TimeoutExpired:
-            for q, _, _ in procs:
-                q.kill()
-            raise RuntimeError("worker watchdog expired (inconclusive)")
+            if not tolerant:
+                for q, _, _ in procs:
+                    q.kill()
+                raise RuntimeError("worker watchdog expired (inconclusive)")
+            p.kill()
+            p.wait()
+            HUNG.append(os.path.basename(outf) + ": watchdog expired")
+            results.append(None)
+            continue
         logf.close()
         if not os.path.exists(outf):
             log = open(logf.name).read()[-3000:]
+            if tolerant:
+                HUNG.append(os.path.basename(outf) + f": died without output (rc={p.returncode}) " + log[-300:])
+                results.append(None)
+                continue
             raise RuntimeError(f"worker died without output (rc={p.returncode}):\n{log}")
         r = json.load(open(outf))
         if not r.get("ok"):
+            if tolerant:
+                HUNG.append(os.path.basename(outf) + ": worker error " + r.get("error", "?")[-1500:])
+                results.append(None)
+                continue
             raise RuntimeError("worker error:\n" + r.get("error", "?"))
         results.append(r)
     return results
@@ -212,6 +231,13 @@ def finish(prop, tier, seed, mod, mode, assumptions, tot, corpus, nshards, viola
     if n_nt < 2 or cov["evaluations"] < 1 or not cov["samples"]:
         print("HARNESS-ERROR vacuous run (too few non-trivial cases)")
         return 2
+    timed_out = int(tot["extra"].get("cases_timed_out", 0) or 0)
+    if (HUNG or timed_out) and not violations:
+        print(f"HARNESS-ERROR part of the search did not finish (inconclusive): {len(HUNG)} worker(s) "
+              f"[{'; '.join(h[:200] for h in HUNG)}], {timed_out} case(s) over the per-case limit")
+        return 2
+    if HUNG or timed_out:
+        print(f"NOTE: {len(HUNG)} worker(s) and {timed_out} case(s) did not finish; the violations below come from the rest")
     missing = [c for c in getattr(mod, "REQUIRED_CLASSES", []) if not tot["classes"].get(c)]
     if missing and not violations:
         print(f"HARNESS-ERROR generator did not cover required case classes: {missing}")
@@ -348,11 +374,13 @@ def main(argv):
             procs.append(spawn(stage_paths, mode, dict(base, what="run", shard=sh),
                                workdir, f"shard{sh}",
                                hashseed=str(sh if prop in SEED_PER_SHARD else sh % 4)))
-        results = collect(procs, WORKER_TIMEOUT[tier])
+        results = collect(procs, WORKER_TIMEOUT[tier], tolerant=True)
         violations = []
         known_lines = []
         if corpus:
             rep = results.pop(0)
+            if rep is None:
+                raise RuntimeError("the regression corpus worker did not finish: " + "; ".join(HUNG))
             for item, out in zip(corpus, rep["replays"]):
                 f = out["failure"]
                 if item["expect"] == "known":
@@ -369,6 +397,9 @@ def main(argv):
                     if f is not None:
                         f["case"] = item["case"]
                         violations.append((f, os.path.join(VERIF, item["name"])))
+        results = [r for r in results if r is not None]
+        if not results:
+            raise RuntimeError("no worker finished: " + "; ".join(HUNG))
         tot = merge(results)
         for sig, n in tot["known_hits"].items():
             if sig in known and not any(s == sig for s, _ in known_lines):
